@@ -482,12 +482,12 @@ def run_e2e(ctx: Ctx) -> None:
     grid = []
     for sysver in (None, '1.0', '2.0'):
         for wm in ('default', 'nofallback', 'forcefallback'):
-            for call, fbkind in (("dependency('foo', method: 'pkg-config', required: false)", 'implicit-optional'),
-                                 ("dependency('foo', method: 'pkg-config', required: false, allow_fallback: true)", 'implicit-allowed'),
-                                 ("dependency('foo', method: 'pkg-config', version: '>=2.0', required: false, fallback: 'foosub')", 'explicit'),
-                                 ("dependency('foo', method: 'pkg-config', required: false, allow_fallback: false)", 'none')):
-            # method: 'pkg-config' — with --backend=none the cmake detection method raises MesonBugException
-            # (no CMake generator for that backend), which is outside C10
+            for call, fbkind in (("dependency('foo', required: false)", 'implicit-optional'),
+                                 ("dependency('foo', required: false, allow_fallback: true)", 'implicit-allowed'),
+                                 ("dependency('foo', version: '>=2.0', required: false, fallback: 'foosub')", 'explicit'),
+                                 ("dependency('foo', required: false, allow_fallback: false)", 'none')):
+            # CMAKE is pointed at a missing binary below: with --backend=none the cmake detection method raises
+            # MesonBugException (no CMake generator for that backend), which is outside C10
                 grid.append((sysver, wm, call, fbkind))
     for sysver, wm, call, fbkind in grid:
         root = common.scratch_dir('mverif-c10e-')
@@ -495,6 +495,7 @@ def run_e2e(ctx: Ctx) -> None:
             env = dict(os.environ)
             env.update(e2e_project(root, sysver, call))
             env['PYTHONPATH'] = common.REPO
+            env['CMAKE'] = os.path.join(root, 'no-cmake-here')
             p = subprocess.run([sys.executable, os.path.join(common.REPO, 'meson.py'), 'setup', '--backend=none',
                                 f'--wrap-mode={wm}', os.path.join(root, 'b'), os.path.join(root, 'src')],
                                env=env, stdout=subprocess.PIPE, stderr=subprocess.STDOUT, text=True, timeout=300)
@@ -528,6 +529,30 @@ def run_e2e(ctx: Ctx) -> None:
             common.rmtree(root)
 
 
+def witness_method_kwarg(ctx: Ctx) -> None:
+    """`dependency('foo', method: 'pkg-config')` after `meson.override_dependency('foo', d)`: the override must win
+    (dependency.yaml: "returned unconditionally"). Real holder, stubbed world, the `method` keyword passed through."""
+    from mesonbuild.dependencies.base import DependencyMethods
+    w = {'wrap_mode': 'default', 'fff': [], 'overrides': {'foo': [['ov', True, '1.0'], True]}, 'cache': {}, 'system': {},
+         'provides': {}, 'subprojects': {}}
+    s = D.Session(w)
+    I = D._Impl
+    saved = I.dependencies.find_external_dependency
+    I.dependencies.find_external_dependency = s.find_external_dependency
+    try:
+        df = I.DF.DependencyFallbacksHolder(s.interp, ['foo'], s.HOST, None, None)
+        d = df.lookup({'native': s.HOST, 'version': [], 'required': False, 'method': DependencyMethods.PKGCONFIG})
+    finally:
+        I.dependencies.find_external_dependency = saved
+    ctx.count()
+    got = 'found:' + getattr(d, 'ident', '?') if d.found() else 'notfound'
+    if got != 'found:ov':
+        ctx.violation('override-ignored-with-method-kwarg',
+                      f"dependency('foo', method: 'pkg-config', required: false) returned {got} although 'foo' is overridden "
+                      "(get_dep_identifier keys the override on the method keyword)",
+                      {'kind': 'witness', 'world': w, 'call': "dependency('foo', method: 'pkg-config', required: false)"})
+
+
 # ------------------------------------------------------------------------------------------ entry points
 
 def run(ctx: Ctx) -> None:
@@ -539,6 +564,7 @@ def run(ctx: Ctx) -> None:
                 '{packagefiles, cache, URL, fallback URL after failure, fallback URL after bad hash} x recorded hash {good, bogus, none} x '
                 '(no fault | one fault at each of 22 fault points (quick: 6 sampled) | nodownload), for source and patch, plus random cases with up to 8 faults. '
                 'Non-trivial = distinct model answers (outcome+effects+state), excluding argument errors.')
+    witness_method_kwarg(ctx)
     run_dep(ctx)
     run_wrap(ctx)
     if ctx.tier == 'thorough':
